@@ -33,7 +33,41 @@ pub fn models() -> Vec<Model> {
     out.push(verdict_undefined(Exp::And(vec![v("b"), Exp::Max(vec![])]), Comparison::LessOrEqual, k(1.0)));
     out.push(verdict_undefined(k(5.0), Comparison::GreaterOrEqual, Exp::Or(vec![v("b"), xdiv0()])));
     out.push(verdict_undefined(Exp::And(vec![v("b"), xdiv0()]), Comparison::GreaterOrEqual, k(2.0)));
+    out.extend(collapsing_singletons());
     out
+}
+
+/// C01 / C02 (fixed 81a4b76 + e35561f): an and/or node whose identity constants are dropped by `simplify` and whose
+/// single remaining operand is not a 0/1 value (`x and 1` -> `x`). `Linearizer::linearize` now checks every such node
+/// up front, on the declared domains, with the 0/1 test of the lowering. Model and implementation must both reject
+/// these with NonBinaryLogicOperand. (The first input of the family, `max y s.t. y <= (x and 1); x <= -1`, is the
+/// second entry of `models_base`.)
+fn collapsing_singletons() -> Vec<Model> {
+    let and = |a: Exp, b: Exp| Exp::And(vec![a, b]);
+    vec![
+        // C01-nary-singleton-nonbinary-let-in: min 3 * (x + 1) s.t. x and 1 = 3; x >= 0, x in Real(0, 4)
+        build(OptimizationType::Min, Exp::BinOp(BinOp::Mul, bx(k(3.0)), bx(Exp::BinOp(BinOp::Add, bx(v("x")), bx(k(1.0))))),
+            vec![Constraint::new(and(v("x"), k(1.0)), Comparison::Equal, k(3.0), "c".into()),
+                 Constraint::new(v("x"), Comparison::GreaterOrEqual, k(0.0), "l".into())],
+            &[d("x", VariableType::Real(0.0, 4.0))]),
+        // C02-nary-singleton-nonbinary-better: min x_1 and 2 s.t. x_1 - 0 <= z / 1 + min{4, a}
+        build(OptimizationType::Min, and(v("x_1"), k(2.0)),
+            vec![Constraint::new(Exp::BinOp(BinOp::Sub, bx(v("x_1")), bx(k(0.0))), Comparison::LessOrEqual,
+                    Exp::BinOp(BinOp::Add, bx(Exp::BinOp(BinOp::Div, bx(v("z")), bx(k(1.0)))), bx(Exp::Min(vec![k(4.0), v("a")]))), "c".into())],
+            &[d("x_1", VariableType::Real(-2.5, 2.5)), d("a", VariableType::Real(-3.5, 2.5)),
+              d("z", VariableType::NonNegativeReal(0.0, f64::INFINITY))]),
+        // C02-nary-singleton-nonbinary-not-attained: min -(x and 1) s.t. z >= -1
+        build(OptimizationType::Min, Exp::UnOp(rooc::UnOp::Neg, bx(and(v("x"), k(1.0)))),
+            vec![Constraint::new(v("z"), Comparison::GreaterOrEqual, k(-1.0), "c".into())],
+            &[d("x", VariableType::IntegerRange(-2, 1)), d("y", VariableType::IntegerRange(-1, 2)), d("z", VariableType::Real(-1.5, 2.5))]),
+        // finding 5 (e35561f): the bounds inferred FROM the collapsed constraint (x in [1, 1] through y <= min{b, x},
+        // y >= 1) made the in-loop check pass; the check now runs before bound inference, on the declared domains
+        build(OptimizationType::Min, v("x"),
+            vec![Constraint::new(v("y"), Comparison::LessOrEqual, and(Exp::Min(vec![v("b"), v("x")]), k(1.0)), "c1".into()),
+                 Constraint::new(v("y"), Comparison::GreaterOrEqual, k(1.0), "c3".into()),
+                 Constraint::new(v("x"), Comparison::GreaterOrEqual, k(0.5), "c4".into())],
+            &[d("b", VariableType::Boolean), d("x", VariableType::Real(0.0, 5.0)), d("y", VariableType::Real(0.0, 10.0))]),
+    ]
 }
 
 /// C01 (fixed ba14904): `min x s.t. c: <logic value> cmp <literal>; x >= 0` where the literal alone decides the
@@ -108,8 +142,27 @@ mod tests {
     fn pruned_undefined_operands_are_rejected() {
         let all = super::models();
         let n = all.len();
-        for m in &all[n - 8..] {
+        for m in &all[n - 12..n - 4] {
             assert!(rooc::Linearizer::linearize(m.clone()).is_err(), "compiled: {}", m);
         }
+    }
+
+    /// the inputs of the singleton-collapse findings (81a4b76 + e35561f) are rejected with NonBinaryLogicOperand,
+    /// and the impl-side oracle `certain_collapse` sees every one of them but the finding-5 input (whose collapsed
+    /// operand `min{b, x}` is not a bare variable)
+    #[test]
+    fn collapsing_singletons_are_rejected() {
+        let all = super::models();
+        let n = all.len();
+        let mut ms: Vec<_> = all[n - 4..].to_vec();
+        ms.push(all[1].clone());
+        for m in &ms {
+            match rooc::Linearizer::linearize(m.clone()) {
+                Err(rooc::LinearizationError::NonBinaryLogicOperand(_)) => {}
+                other => panic!("expected NonBinaryLogicOperand for {}: {:?}", m, other.map(|_| ())),
+            }
+        }
+        let certain = ms.iter().filter(|m| crate::props::c01::certain_collapse(m)).count();
+        assert_eq!(certain, 4);
     }
 }
